@@ -1,4 +1,4 @@
-CONSTANTS B = 4  MAXB = 8  CursorRule = "terminator"  MaxFrames = 2  MaxBody = 3  MaxExtra = 1
+CONSTANTS B = 4  MAXB = 12  CursorRule = "terminator"  MaxFrames = 2  MaxBody = 3  MaxExtra = 1
           MaxCancels = 1  MaxHist = 16
 SPECIFICATION HSpec
 INVARIANT Export
